@@ -25,6 +25,8 @@ type DKGCase struct {
 	Initiator int    `json:"initiator"`
 	// Rogue: before the generation, an ordinary client sends this key-generation message to instance 0.
 	Rogue string `json:"rogue,omitempty"` // "" | prepare | execute | commit | abort | contribute
+	// RogueChain: the rogue client appends the public certificate of instance 2 (a peer) to the chain it presents
+	RogueChain bool `json:"rogue_chain,omitempty"`
 	// Conflict: after a successful generation two conflicting duties are routed over the participants.
 	Conflict string  `json:"conflict"` // double-vote | a-surrounds-b | b-surrounds-a | two-blocks
 	Routing  [][]int `json:"routing"`  // per participant: ordered duties (0 = A, 1 = B)
@@ -114,7 +116,11 @@ func runDKG(c *DKGCase, only string) (*dkgOutcome, *vkit.Violation, error) {
 			req, resp = &pb.ContributeRequest{Account: account, Secret: make([]byte, 32), VerificationVector: [][]byte{make([]byte, 48)}}, &pb.ContributeResponse{}
 		}
 		method := "/v1.DKG/" + strings.ToUpper(c.Rogue[:1]) + c.Rogue[1:]
-		if err := ds[0].Invoke("alice", false, method, req, resp); err == nil {
+		rc := Cred{CN: "alice", Issuer: "ca"}
+		if c.RogueChain {
+			rc.Append = "instance:1"
+		}
+		if err := ds[0].Invoke(rc, method, req, resp); err == nil {
 			report("rogue-dkg-message-accepted", "a %s message from client alice (not a peer) was answered without error by instance 1", c.Rogue)
 		}
 		o.trace = append(o.trace, "rogue "+c.Rogue)
@@ -123,7 +129,7 @@ func runDKG(c *DKGCase, only string) (*dkgOutcome, *vkit.Violation, error) {
 		}
 	}
 	gresp := &pb.GenerateResponse{}
-	err := ds[c.Initiator%c.Instances].Invoke("alice", false, "/v1.AccountManager/Generate",
+	err := ds[c.Initiator%c.Instances].Invoke(Cred{CN: "alice", Issuer: "ca"}, "/v1.AccountManager/Generate",
 		&pb.GenerateRequest{Account: account, Passphrase: []byte(vkit.DefaultPassphrase), Participants: c.N, SigningThreshold: c.T}, gresp)
 	if err != nil {
 		return o, nil, fmt.Errorf("generate: transport error: %v: %s", err, ds[c.Initiator%c.Instances].Logs())
@@ -171,7 +177,7 @@ func runDKG(c *DKGCase, only string) (*dkgOutcome, *vkit.Violation, error) {
 	for i := range members {
 		m := &members[i]
 		lresp := &pb.ListAccountsResponse{}
-		if err := m.d.Invoke("alice", false, "/v1.Lister/ListAccounts", &pb.ListAccountsRequest{Paths: []string{WD}}, lresp); err != nil {
+		if err := m.d.Invoke(Cred{CN: "alice", Issuer: "ca"}, "/v1.Lister/ListAccounts", &pb.ListAccountsRequest{Paths: []string{WD}}, lresp); err != nil {
 			return o, nil, fmt.Errorf("list on %d: %v", m.id, err)
 		}
 		var found *pb.DistributedAccount
@@ -206,7 +212,7 @@ func runDKG(c *DKGCase, only string) (*dkgOutcome, *vkit.Violation, error) {
 	var ids []uint64
 	for _, m := range members {
 		sresp := &pb.SignResponse{}
-		if err := m.d.Invoke("alice", false, "/v1.Signer/Sign", &pb.SignRequest{Id: &pb.SignRequest_Account{Account: account}, Data: msg, Domain: dom}, sresp); err != nil {
+		if err := m.d.Invoke(Cred{CN: "alice", Issuer: "ca"}, "/v1.Signer/Sign", &pb.SignRequest{Id: &pb.SignRequest_Account{Account: account}, Data: msg, Domain: dom}, sresp); err != nil {
 			return o, nil, fmt.Errorf("sign on %d: %v", m.id, err)
 		}
 		if sresp.GetState() != pb.ResponseState_SUCCEEDED {
@@ -260,13 +266,13 @@ func runDKG(c *DKGCase, only string) (*dkgOutcome, *vkit.Violation, error) {
 			var err error
 			switch c.Conflict {
 			case "double-vote":
-				err = m.d.Invoke("alice", false, "/v1.Signer/SignBeaconAttestation", att(10, 12, uint64(1+dty)), sresp)
+				err = m.d.Invoke(Cred{CN: "alice", Issuer: "ca"}, "/v1.Signer/SignBeaconAttestation", att(10, 12, uint64(1+dty)), sresp)
 			case "a-surrounds-b":
-				err = m.d.Invoke("alice", false, "/v1.Signer/SignBeaconAttestation", [2]*pb.SignBeaconAttestationRequest{att(10, 15, 1), att(11, 14, 2)}[dty], sresp)
+				err = m.d.Invoke(Cred{CN: "alice", Issuer: "ca"}, "/v1.Signer/SignBeaconAttestation", [2]*pb.SignBeaconAttestationRequest{att(10, 15, 1), att(11, 14, 2)}[dty], sresp)
 			case "b-surrounds-a":
-				err = m.d.Invoke("alice", false, "/v1.Signer/SignBeaconAttestation", [2]*pb.SignBeaconAttestationRequest{att(11, 14, 1), att(10, 15, 2)}[dty], sresp)
+				err = m.d.Invoke(Cred{CN: "alice", Issuer: "ca"}, "/v1.Signer/SignBeaconAttestation", [2]*pb.SignBeaconAttestationRequest{att(11, 14, 1), att(10, 15, 2)}[dty], sresp)
 			default:
-				err = m.d.Invoke("alice", false, "/v1.Signer/SignBeaconProposal", prop(uint64(1+dty)), sresp)
+				err = m.d.Invoke(Cred{CN: "alice", Issuer: "ca"}, "/v1.Signer/SignBeaconProposal", prop(uint64(1+dty)), sresp)
 			}
 			if err != nil {
 				return o, nil, fmt.Errorf("duty on %d: %v", m.id, err)
@@ -319,6 +325,7 @@ func TestE2EDKG(t *testing.T) {
 		c.Initiator = rapid.IntRange(0, c.Instances-1).Draw(rt, "initiator")
 		if rapid.IntRange(0, 2).Draw(rt, "rogue") == 0 {
 			c.Rogue = rapid.SampledFrom([]string{"prepare", "execute", "commit", "abort", "contribute"}).Draw(rt, "rogue_kind")
+			c.RogueChain = rapid.Bool().Draw(rt, "rogue_chain")
 		}
 		c.Conflict = rapid.SampledFrom([]string{"double-vote", "a-surrounds-b", "b-surrounds-a", "two-blocks"}).Draw(rt, "conflict")
 		for i := 0; i < int(c.N); i++ {
